@@ -58,9 +58,12 @@ extern "C" void h_tokens_get()
   ctx.tokens.line = 1; ctx.tokens.pushback[0] = 0; ctx.tokens.pushback2[0] = 0; ctx.tokens.unget_stack_ptr = 0; ctx.tokens.unget_stack[0] = 0;
   ctx.tokens.unget_ptr = nondet_int(); ASSUME(ctx.tokens.unget_ptr >= 0 && ctx.tokens.unget_ptr <= UNGET_MAX);
   g_p_unget_ptr = &ctx.tokens.unget_ptr; g_p_unget = &ctx.tokens.unget[0]; g_p_line = &ctx.tokens.line; g_p_errcnt = &ctx.error_count; g_p_tbptr = &ctx.tokens.token_buffer.ptr;
-  g_nchars = 0; g_eof = 0; g_len = TOKENLEN; g_errors = 0;
-  char token[TOKENLEN];
-  int t = tokens_get(&ctx, token, TOKENLEN);
+#ifndef TLEN
+#define TLEN TOKENLEN
+#endif
+  g_nchars = 0; g_eof = 0; g_len = TLEN; g_errors = 0;
+  char token[TLEN];
+  int t = tokens_get(&ctx, token, TLEN);
   OBL(t >= -1 && t <= 11, "C16.tokens: a token type is returned");
   OBL(ctx.tokens.unget_ptr >= 0 && ctx.tokens.unget_ptr <= UNGET_MAX, "C16.tokens: the unget buffer holds at most a small constant number of characters after a token (inductive over calls)");
   CANARY("h_tokens_get end");
